@@ -9,6 +9,10 @@ from mitmproxy import optmanager, exceptions
 TYS = {"bool": bool, "str": str, "int": int, "optstr": Optional[str], "optint": Optional[int], "seqstr": Sequence[str]}
 NEL = "\x85"
 TYNAME = {v: k for k, v in TYS.items()}
+os.environ["HOME"] = "/h/me/"      # the environment optmanager.relative_path / expanduser read (= the driver's `relpath` op)
+REL_DIRS = ["/etc/mitm", "/etc//mitm/", "conf", "", ".", "//srv/x", "/", "a/../b", "~/cfg"]
+REL_PATHS = ["a.py", "./a.py", "sub/../a.py", "/abs/a.py", "//abs/a.py", "///abs//a.py", "~/a.py", "~", "~root/x.py", "~nosuchuser/x.py", "~\x00/x", "",
+             ".", "a//b/./c/", "x/~/y", "~~", "~/", "\u00e9/b c.py", "~root", "~/./x/", "..", "a/"]
 MAXD = 2             # listeners issue nested updates at most this deep (= C44.maxDepth in the model)
 OTHER = 1.5          # a value of none of the option types (Atom.other in the model)
 
@@ -178,6 +182,10 @@ class _WitnessStale(Exception):
     pass
 
 
+class _Attr(Exception):
+    pass
+
+
 def outcome(fn):
     """run one operation; map the exceptions the property talks about to an enum"""
     try:
@@ -205,7 +213,11 @@ class Check(PropertyCheck):
                   "transcribed: whitespace and decimal digits of every script from generated Unicode tables, sign, single underscores; "
                   "bool toggle/true/false/omitted; Sequence collect/clear; Optional none): parse_setval_typed, set_never_type_error "
                   "(all histories), set_bool_toggle, set_sequence_collects, set_bare_name, set_scalar_multiple_refused, "
-                  "deferred_spec_is_parsed_when_declared (every value string, every type); config_roundtrip_nondefault for any YAML with "
+                  "deferred_spec_is_parsed_when_declared (every value string, every type); merge (command-line values) is an "
+                  "operation of the histories: merge_appends_sequences (None skipped, a list is the current list followed by the given "
+                  "one, TypeError/AttributeError update nothing); config-file paths: optmanager.relative_path with the pathlib/posixpath "
+                  "pieces it uses (PurePosixPath parsing, `/`, expanduser, absolute) transcribed and tied (driver op relpath): "
+                  "relative_path_of_absolute, relative_path_of_plain, relative_path_is_absolute; config_roundtrip_nondefault for any YAML with "
                   "parse(dump d)=d (+partial/counterexample for U+0085, F-C44b). Model tied to the real OptManager by differential "
                   "runs (every reply: outcome, every listener call at every depth with the values it saw, all option values, deferred "
                   "names; save→load values).")
@@ -217,7 +229,9 @@ class Check(PropertyCheck):
                   "PARTIAL: 'listeners end up observing the restored state' is false for the code (F-C44c, F-C44d) and proved under the "
                   "guards rollback-notification-delivered / quiet / listener concerned by the outer names; accepted_update_… is stated "
                   "for listeners that only accept or reject (for acting listeners that clause is checked by the direct oracle); "
-                  "deferred_spec_is_parsed_when_declared is stated from the empty manager. known(): exact classifiers, near misses in "
+                  "deferred_spec_is_parsed_when_declared is stated from the empty manager; relative_path takes $HOME, the password database "
+                  "and os.getcwd() as parameters (the tie fixes HOME=/h/me/ and uses the entry root→/root); load(…, cwd) itself (applying "
+                  "relative_path to the `scripts` entries) is not an operation of the model; tuples are not generated for merge. known(): exact classifiers, near misses in "
                   "known_selftest (run in setup).")
     technique = "Lean 4 proof (induction over histories, invariants) + differential model-vs-code correspondence on a real OptManager"
     rule = ("histories of 3–16 operations over ≤6 options of the six types: declarations (some ill-typed / re-declared), "
@@ -392,6 +406,17 @@ class Check(PropertyCheck):
         for s in STRS:
             for ty, v in (("str", ["s", s]), ("optstr", ["s", s]), ("seqstr", ["q", [["s", s], ["s", "x"]]])):
                 yield {"ops": [{"op": "add", "n": 0, "ty": ty, "v": self._dflt(ty)}, {"op": "upd", "kw": [[0, v]]}, {"op": "save"}]}
+        # tie of the transcribed merge: every option type meets None / a scalar / a list, known and unknown names
+        decl6 = [{"op": "add", "n": i, "ty": ty, "v": self._dflt2(ty)} for i, ty in enumerate(TYS)]
+        mvals = [["n"], ["q", []], ["q", [["s", "x"]]], ["q", [["s", "a"], ["s", "b\nc"]]], ["s", "y"], ["i", 3], ["b", True], ["q", [["i", 1]]]]
+        for i in range(len(TYS) + 1):
+            for v in mvals:
+                n = i if i < len(TYS) else 9
+                yield {"ops": decl6 + [{"op": "conn", "id": 1, "rule": ["never"]}, {"op": "merge", "kw": [[5, ["q", [["s", "first"]]]]]},
+                                       {"op": "merge", "kw": [[n, v], [5, ["q", [["s", "more"]]]], [1, ["n"]]]}, {"op": "merge", "kw": [[n, v]]}, {"op": "save"}]}
+        # tie of the transcribed relative_path / pathlib pieces (no oracle clause)
+        for rel in REL_DIRS:
+            yield {"ops": [{"op": "relpath", "rel": rel, "path": pth} for pth in REL_PATHS]}
         # a well-typed value first, then values of ANOTHER type that compare (and hash) equal to it — 1 == True == 1.0 — incl. the
         # default: each must be judged by its own type (all cases of a run share one process, hence any process-wide cache)
         for ty, good, twins in (("int", ["i", 1], [["f", 1]]), ("int", ["i", 0], [["f", 0]]), ("optint", ["i", 5], [["f", 5]]),
@@ -455,6 +480,18 @@ class Check(PropertyCheck):
                 out, exc = outcome(lambda: fn(**kw))
             rec["assigned"] = sorted(n for n, _ in op["kw"] if n in pre)
             rec["want"] = {n: py(v) for n, v in op["kw"] if n in pre}
+        elif k == "merge":
+            # tie of the transcribed OptManager.merge (command-line values: None skipped, lists appended)
+            kw = {nm(n): py(v) for n, v in op["kw"]}
+            if len(kw) != len(op["kw"]): raise Skip()
+
+            def go():
+                try: o.merge(kw)
+                except AttributeError: raise _Attr()
+            try:
+                out, exc = outcome(go)
+            except _Attr:
+                out, exc = "AttributeError", None
         elif k == "set":
             specs = [nm(n) if v is None else "%s=%s" % (nm(n), v) for n, v in op["specs"]]
             out, exc = outcome(lambda: o.set(*specs, defer=bool(op["defer"])))
@@ -464,6 +501,13 @@ class Check(PropertyCheck):
             out, exc = outcome(o.reset)
         elif k == "save":
             return self._save(w, pre, pre_shown)
+        elif k == "relpath":
+            # tie of the transcribed optmanager.relative_path (what load(opts, text, cwd) applies to every `scripts` entry)
+            try:
+                rep = "ok " + hexs(str(optmanager.relative_path(op["path"], relative_to=op["rel"])))
+            except ValueError: rep = "ValueError"
+            except RuntimeError: rep = "RuntimeError"
+            return {"op": "relpath", "out": rep.split(" ")[0], "reply": rep}
         else:
             raise ValueError(k)
         post = w.values()
@@ -511,6 +555,7 @@ class Check(PropertyCheck):
         fails = []
         for i, r in enumerate(obs):
             k = r["op"]
+            if k == "relpath": continue          # transcription tie only
             if k == "save":
                 # "Saving options to a config file and loading that file into fresh options reproduces every non-default value."
                 if r["out"] != "ok":
@@ -518,7 +563,7 @@ class Check(PropertyCheck):
                 for l in r["lost"]:
                     fails.append("roundtrip@%d#%d: option %d not reproduced after save/load: %r came back as %r" % (i, l["n"], l["n"], l["want"], l["got"]))
                 continue
-            if r["out"] not in ("ok", "TypeError", "OptionsError", "KeyError"):
+            if r["out"] not in ("ok", "TypeError", "OptionsError", "KeyError") and not (k == "merge" and r["out"] == "AttributeError"):
                 fails.append("op %d: unexpected outcome %s" % (i, r["out"]))
             # "options only ever hold values of their declared type"
             if r["untyped"]: fails.append("typed: op %d leaves options %s holding a value outside the declared type" % (i, r["untyped"]))
@@ -687,6 +732,11 @@ class Check(PropertyCheck):
             elif k in ("upd", "updk", "updd"):
                 if len({n for n, _ in op["kw"]}) != len(op["kw"]): raise Skip()
                 lines.append("%s %s" % (k, ";".join("%d=%s" % (n, wire_val(v)) for n, v in op["kw"]) or "-"))
+            elif k == "merge":
+                if len({n for n, _ in op["kw"]}) != len(op["kw"]): raise Skip()
+                lines.append("merge %s" % (";".join("%d=%s" % (n, wire_val(v)) for n, v in op["kw"]) or "-"))
+            elif k == "relpath":
+                lines.append("relpath %s %s %s" % (cps(os.getcwd()), cps(op["rel"]), cps(op["path"])))
             elif k == "set":
                 lines.append("set %d %s" % (op["defer"], ";".join(str(n) if v is None else "%d=%s" % (n, cps(v)) for n, v in op["specs"]) or "-"))
             else: lines.append(k)
